@@ -805,14 +805,14 @@ impl Suite for RpSuite {
         "reverse-proxy"
     }
     fn rule(&self) -> String {
-        "reverse proxy configured towards a loopback origin owned by the harness, with allow_private_network_connections false and true; HTTP/1.1 requests on a reverse-proxy host or on the main host (Upgrade header + path under the mask); the client names the proxy host or a decoy (a second listening canary) in Host / absolute URI; the origin answers 101 / 200 with a body and more bytes, the client sends more bytes; oracle: the configured origin - and never the decoy - receives exactly one HTTP/1.1 request with the same method and path and an X-Original-Protocol header, the client receives the origin's status, body and following bytes unchanged, the origin receives the client's following bytes unchanged, no credentials are demanded, whatever the egress policy; non-trivial = policy disallows private destinations or the client names the decoy".into()
+        "reverse proxy configured towards a loopback origin owned by the harness, with allow_private_network_connections false and true; HTTP/1.1 requests on a reverse-proxy host or on the main host (Upgrade header + path under the mask); the client names the proxy host or a decoy (a second listening canary) in Host / absolute URI; the origin answers 101 / 200 with a body and more bytes, the client sends more bytes; oracle: the configured origin - and never the decoy - receives exactly one HTTP/1.1 request with the same method and request target (path and, in one case in two, a query string) and an X-Original-Protocol header, the client receives the origin's status, body and following bytes unchanged, the origin receives the client's following bytes unchanged, no credentials are demanded, whatever the egress policy; non-trivial = policy disallows private destinations or the client names the decoy".into()
     }
     fn strategy(&self, _: Tier) -> BoxedStrategy<RpCase> {
         (
             any::<bool>(),
             any::<bool>(),
-            prop_oneof![3 => Just("GET"), 1 => Just("POST")],
-            "/api(/[a-z0-9]{1,8}){0,3}",
+            prop_oneof![4 => Just("GET"), 2 => Just("POST"), 1 => Just("PUT"), 1 => Just("DELETE"), 1 => Just("OPTIONS")],
+            "/api(/[a-z0-9]{1,8}){0,3}(\\?[a-z]{1,5}=[a-zA-Z0-9%&=._-]{0,20})?",
             prop_oneof![2 => Just("rp"), 1 => Just("decoy")],
             any::<bool>(),
             prop_oneof![Just(101u16), Just(200u16)],
